@@ -376,10 +376,11 @@ def replay(ctx, body):
     print(json.dumps(r['fails'], indent=1))
     want = body.get('signature')
     sigs = ['C13:%s:%s' % (f['clause'], f['site']) for f in r['fails']]
-    if r['fails'] and (want is None or want in sigs or True):
+    if r['fails']:
         print('VIOLATION property=C13 replay=%s' % body.get('replay_cmd', '').split()[-1])
         return 1
     if body.get('kind') == 'no-failing-input-found' and r['obs'] is not None and case.get('exact'):
+        core.build(ctx, target=['Check/C13.vo'])     # the model of the tree under test
         bad, errors = core.coq_eval_cases(ctx, HEADER, CASE_TYPE, [c_case(case, r['obs'])], 'C13.mismatches')
         if bad or errors:
             print('model and implementation still differ on this case: %s' % json.dumps(r['obs']))
